@@ -8,37 +8,77 @@ import (
 	"time"
 )
 
-var kvProps = map[string]bool{"ALL": true, "C01": true, "C05": true, "C06": true, "C07": true, "C17": true}
+var kvProps = map[string]bool{"ALL": true, "C01": true, "C05": true, "C06": true, "C07": true, "C17": true, "C02": true, "C08": true, "C09": true, "C18": true}
+
+// schedPlans: scenario-name prefixes per property.
+var schedPlans = map[string][]string{
+	"C02": {"R-", "L-"},
+	"C03": {"S1-", "S2-", "S3-", "S4-", "S5-", "S6-", "S7-", "S8-", "L-wux", "L-update"},
+	"C08": {"F-"},
+	"C09": {"B-"},
+	"C15": {"K-"},
+	"C18": {"S6-", "L-subdoc"},
+	"C20": {"X-"},
+}
+
+const (
+	ruleSeq   = "explicit-state BFS over operation sequences of the real implementation: every alphabet operation applied in every canonical state reached within the depth bound; a case is one (state, operation) transition, distinct by canonical pre-state x operation"
+	ruleSched = "stateless DFS over thread interleavings of the real implementation under a controlled scheduler: every schedule of each closed scenario with at most <bound> deviations from the default (run-to-block, lowest thread id) schedule; a case is one complete execution, distinct by its choice list; states = distinct observable outcomes"
+)
 
 // RunCheck decides one property at one tier and returns the process exit code.
 func RunCheck(prop, tier string, procs int, budget time.Duration) int {
 	rep := NewReport(prop, tier)
 	pool := NewPool(procs)
+	defer pool.Close()
 	quick := tier != "thorough"
 	if budget == 0 {
-		budget = 4 * time.Minute
+		budget = 5 * time.Minute
 		if !quick {
-			budget = 40 * time.Minute
+			budget = 45 * time.Minute
 		}
 	}
 	deadline := time.Now().Add(budget)
-	switch {
-	case kvProps[prop]:
-		rep.Rule = "explicit-state BFS over operation sequences of the real implementation: every alphabet operation applied in every canonical state reached within the depth bound; a case is one (state, operation) transition, distinct by canonical pre-state x operation"
-		rep.Assumptions = []string{"SQLite, database/sql, Go runtime trusted", "fixed small alphabets of keys, bodies, xattr names, expiries, CAS tokens", "canonical state drops revSeqNo magnitude and absolute CAS values (DESIGN 2.3)"}
-		if quick {
-			RunKVBFS(rep, pool, Config{Witness: true, TwoHandles: true, MaxDocSize: 300}, 3, 0, deadline)
-		} else {
-			RunKVBFS(rep, pool, Config{Witness: true, TwoHandles: true, MaxDocSize: 300}, 4, 1, deadline)
-			RunKVBFS(rep, pool, Config{Disk: true, Witness: true, TwoHandles: true, MaxDocSize: 300}, 3, 1, deadline)
-		}
-	case strings.HasPrefix(prop, "sched:"):
+	rep.Assumptions = []string{"SQLite, database/sql, Go runtime, otto trusted", "fixed small alphabets of keys, bodies, xattr names, expiries, CAS tokens", "scheduling points at synchronisation operations only (mutex, cond, channel receive, goroutine start/exit, timer release); execution inside one SQLite call is atomic"}
+	known := false
+	if strings.HasPrefix(prop, "sched:") {
 		// developer entry: sched:<scenario>:<bound>
 		parts := strings.Split(prop, ":")
 		b, _ := strconv.Atoi(parts[2])
 		rep.Prop = "ALL"
+		rep.Rule = ruleSched
 		RunSched(rep, pool, parts[1], b, deadline)
-	default:
+		return rep.Finish()
+	}
+	if kvProps[prop] {
+		known = true
+		rep.Rule = ruleSeq
+		rep.Assumptions = append(rep.Assumptions, "canonical state drops revSeqNo magnitude and absolute CAS values (DESIGN 2.3)")
+		kvBudget := deadline
+		if schedPlans[prop] != nil {
+			kvBudget = time.Now().Add(budget / 2)
+		}
+		if quick {
+			RunKVBFS(rep, pool, Config{Witness: true, TwoHandles: true, MaxDocSize: 300}, 3, 0, kvBudget)
+		} else {
+			RunKVBFS(rep, pool, Config{Witness: true, TwoHandles: true, MaxDocSize: 300}, 4, 1, kvBudget)
+			RunKVBFS(rep, pool, Config{Disk: true, Witness: true, TwoHandles: true, MaxDocSize: 300}, 3, 1, deadline)
+		}
+	}
+	if prefixes := schedPlans[prop]; prefixes != nil {
+		known = true
+		if rep.Rule != "" {
+			rep.Rule += "; plus: " + ruleSched
+		} else {
+			rep.Rule = ruleSched
+		}
+		bound := 2
+		if !quick {
+			bound = 3
+		}
+		RunSchedMany(rep, pool, ScenarioNames(prefixes...), bound, deadline)
+	}
+	if !known {
 		fmt.Printf("no check registered for %s\n", prop)
 		return 2
 	}
@@ -89,6 +129,9 @@ func Replay(w Witness) int {
 			return 0
 		}
 		return 2
+	}
+	if kind.Kind == "sched" {
+		return ReplaySched(w)
 	}
 	fmt.Println("unknown replay kind", kind.Kind)
 	return 2
